@@ -91,6 +91,9 @@ def draw_config(rng, wl, tier):
         # F4 by ordinal: the k-th optimiser call of the run fails after earlier ones succeeded (m(RQ)fit fits twice).
         # Whatever the analysis then returns is still judged by the identities; an error is a legitimate outcome.
         cfg["fail"] = [f"#{rng.randint(2, 3)}"]
+        if wl["entry"] != "fit_circuit" and rng.random() < 0.7:
+            # every optimiser call of the second internal fit pass fails (the first pass tries all method/weight combinations)
+            cfg["fail"] = [f"#>={len(gen.METHODS) * len(gen.WEIGHTS) + 1}"]
         cfg["num_procs"] = 1
         cfg["shared_memory"] = False
     cfg["in_child"] = rng.random() < 0.12
